@@ -327,6 +327,7 @@ pub fn dispatch(kind: &str, a: &[&str]) -> Option<String> {
         ("bl.allids", []) => all_ids(),
         ("bl.mk", [mode, h, cap, sch, h2, n2]) => mk_modes(mode, &unhex(h), cap.parse().ok()?, sch, &unhex(h2), n2.parse().ok()?)?,
         ("bl.writelim", [ts, lim]) => write_limited(ts, lim.parse().ok()?)?,
+        ("bl.errapi", [h]) => err_api(&unhex(h)),
         // call mixes (n / r|t / by<k> only), model side = extracted BinOps.reader_ops / lexer_ops
         ("bl.mrops", [h, cap, sch, ops]) => rdr_ops(mk_reader(&unhex(h), cap.parse().ok()?, sch), ops)?,
         ("bl.mlops", [h, ops]) => lex_ops(&unhex(h), ops)?,
@@ -401,6 +402,45 @@ fn mk_modes(mode: &str, data: &[u8], cap: usize, sched: &str, first: &[u8], n_fi
         _ => return None,
     };
     Some(format!("{} buf={} inner={}", run, blen, if inner_ok { 1 } else { 0 }))
+}
+
+/// the accessor functions of LexerError / ReaderError (position, kind, into_kind, Display, Error::source):
+/// class of the first error of the lexer and of the slice reader, and whether the reported offset lies
+/// inside the input (the exact offset and the message are not part of the canonical output)
+fn err_api(data: &[u8]) -> String {
+    use std::error::Error;
+    let mut lx = Lexer::new(data);
+    let l = loop {
+        match lx.next_token() {
+            Ok(Some(_)) => {}
+            Ok(None) => break "END".to_string(),
+            Err(e) => {
+                let inrange = e.position() <= data.len();
+                let shown = !e.to_string().is_empty() && !e.kind().to_string().is_empty() && e.source().is_none();
+                let k = lex_class(e.kind());
+                let same = lex_class(&e.into_kind()) == k;
+                break format!("ERR:{}:{}", k, if inrange && shown && same { 1 } else { 0 });
+            }
+        }
+    };
+    let mut rd = TokenReader::from_slice(data);
+    let r = loop {
+        match rd.next() {
+            Ok(Some(_)) => {}
+            Ok(None) => break "END".to_string(),
+            Err(e) => {
+                let inrange = e.position() <= data.len();
+                let shown = !e.to_string().is_empty();
+                let k = reader_err(&e);
+                let same = match e.into_kind() {
+                    ReaderErrorKind::Lexer(x) => format!("ERR:{}", lex_class(&x)) == k,
+                    _ => false,
+                };
+                break format!("{}:{}", k, if inrange && shown && same { 1 } else { 0 });
+            }
+        }
+    };
+    format!("{} {}", l, r)
 }
 
 /// Token::write into a writer that accepts only `lim` bytes (`&mut [u8]`): which token fails, what was written
